@@ -138,6 +138,7 @@ type obs struct {
 	calls   []pcall
 	seen    map[int]int32 // message id -> msg.Partition seen by the checker
 	tick    chan struct{}
+	route   map[int]*obs // multi-mock cases: mock handle -> the mock's own observer (ticks)
 }
 
 func newObs() *obs { return &obs{seen: map[int]int32{}, tick: make(chan struct{}, 1<<16)} }
@@ -295,6 +296,7 @@ func (c *customPart) Partition(m *sarama.ProducerMessage, n int32) (int32, error
 type msgMeta struct {
 	id  int
 	key int64
+	h   int // mock the message is meant for (multi-mock cases)
 }
 
 func msgIDKey(m *sarama.ProducerMessage) (int, int64) {
@@ -318,6 +320,11 @@ func (w *watched) Partition(m *sarama.ProducerMessage, n int32) (int32, error) {
 	w.o.calls = append(w.o.calls, pcall{id, n, c, err})
 	w.o.mu.Unlock()
 	w.o.signal()
+	if w.o.route != nil {
+		if mm, ok := m.Metadata.(msgMeta); ok && w.o.route[mm.h] != nil {
+			w.o.route[mm.h].signal()
+		}
+	}
 	return c, err
 }
 
@@ -358,7 +365,7 @@ func buildMsg(m msgSpec) *sarama.ProducerMessage {
 		Key:       sarama.StringEncoder(strconv.FormatInt(m.key, 10)),
 		Value:     sarama.StringEncoder("v" + strconv.Itoa(m.id)),
 		Partition: m.part0,
-		Metadata:  msgMeta{m.id, m.key},
+		Metadata:  msgMeta{id: m.id, key: m.key},
 	}
 }
 
